@@ -96,3 +96,10 @@ def sample(r):
     return dict(pel_bytes=len(r['bytes']), sections=[s['kind'] for s in r['abs']['secs']],
                 shown_ph={k: r['shown']['ph'].get(k) for k in ('plid', 'eid', 'bmc', 'creator')},
                 outcome=r['outcome'])
+
+
+def corrupt(r):
+    if not r['shown']['ph']:
+        return None
+    r['shown']['ph']['plid'][3] ^= 1
+    return r
